@@ -522,7 +522,7 @@ class LM(object):
         # parameters required for the LM parameter update
         mu0, mulow, muhigh = 0, 0.25, 0.75
         omdown, omup = 0.5, 2
-        while ((ng/ng0) > self.gradtol) and (i < self.maxit):
+        while ((ng/ng0) > self.gradtol) and (i < self.maxit) and np.isfinite(nu):
             i += 1
             s = insolve((J.T@J + nu*I), g)
             xtemp = x-s
